@@ -13,5 +13,11 @@ CHECKS = {
     note='Trusted: Coq kernel + vm_compute; float32 arithmetic of the implementation is modelled by exact rationals and compared within 2^-20 relative; autograd is observed, not proved; model.get_cost is an input of the model.',
     technique='Coq proof over Q (lra/nra, induction on the metric list) + model/impl differential run via vm_compute',
     design_ref='§C19'),
+ 'C13': dict(
+    category='proof',
+    text='Coq theorems (Props/C13.v) over an exact-rational model of MinMaxWeight (symmetric), PACTAct and QuantizerBias: for ALL rational inputs, every precision >= 1 (weights also 0) and every clip > 0 — signed/unsigned code ranges, zeros at 0 bits, monotonicity, half-step / one-step truncating error bounds, common top level, zero below 0, fq = int x reported scale, zero (never a division) at zero bias scale; round-half-even and floor are proved monotone with their error bounds (Base/Round.v). Tied to /repo by seeded float32 tensors plus an exhaustive level-boundary sweep evaluated with vm_compute.',
+    note='Trusted: Coq kernel + vm_compute; float32 rounding of the implementation is NOT modelled: codes may differ by one only where the exact pre-rounding value is within 2^-18 (relative) of a rounding boundary (counted in the evidence); torch.round/floor/clamp/isclose are modelled (rne/Qfloor/qclamp/|s|<=1e-8); asymmetric weight mode and PACTActSigned are outside the property and the model.',
+    technique='Coq proof over Q (floor/round-half-even lemmas, lra/nra) + model/impl differential run via vm_compute with exact boundary sweep',
+    design_ref='§C13'),
 }
 PENDING_REASON = 'check not built yet in this revision of /verif (planned: DESIGN.md §8); not claimed until its theorem + correspondence run exist'
